@@ -326,6 +326,24 @@ def eval_misc(case):
                     bad('JSONData/field-lost', f're-decoded {y.data!r}')
             if case[2] == 'obj' and obj != JSON_OBJS[case[3]]:
                 bad('JSONData/encode-mutates', 'input object changed')
+            # history: decode, edit what came back, use the same blob again - a decode is the caller's own copy
+            first = x.data
+            if isinstance(first, dict):
+                first['edited-by-caller'] = [1]
+                for v in first.values():
+                    if isinstance(v, (list, dict)):
+                        v.clear()
+            elif isinstance(first, list):
+                first.append('edited-by-caller')
+            if isinstance(first, (dict, list)):
+                text = x.json
+                if x.data != json.loads(text):
+                    bad('JSONData/second-decode-differs', f'{text!r}: after the caller edited the first decode, data is {x.data!r}')
+                twin = cls(text)
+                if not (x == twin) or hash(x) != hash(twin):
+                    bad('JSONData/second-decode-differs', f'{text!r}: blob no longer equals / hashes like a blob of the same text')
+                if cls(x.data).json != cls(json.loads(text)).json:
+                    bad('JSONData/second-decode-differs', f'{text!r}: re-encoding the decode gives another text')
         elif kind == 'JSONDataBig':
             cls = {'MeasurementData': MeasurementData, 'UserData': UserData, 'LayoutData': LayoutData}[case[1]]
             size = cls.MAX_SIZE + case[3]
